@@ -3,6 +3,7 @@
 #include <quadmath.h>
 
 #include <pthread.h>
+#include <xmmintrin.h>
 #include "lib.h"
 #include "ops.h"
 
@@ -78,6 +79,9 @@ static void gen_ratios(rng_t* r, uint64_t n, int maxe, double* v, unsigned varia
 // rep bit 12: the distance between input and output modulo the page size is swept: bits 16..21 select it (-256 .. +248 bytes in
 // steps of 8), the input's own page offset rotates with the low bits
 static void sweep_offsets(unsigned rep) {
+  // (also: one case in four starts with every floating-point exception flag pending - sticky flags are legal thread state, as after
+  // an unrelated 0/0 or overflow, and a conversion must not read them as its own)
+  if ((rep & 3) == 1) _mm_setcsr(_mm_getcsr() | 0x3Fu);
   if (!(rep & 0x1000)) return;
   long offs[2];
   offs[0] = 2048 + 8 * (long)(rep & 7) + 64 * (long)((rep >> 3) & 1);
@@ -799,4 +803,15 @@ void run_C14(void) {
       for (int vv = 0; vv < 5; vv++)
         if (!(vv >= 3 && m < 2) && v == 0) case_to_znx64(m, vv, vv != 3, (int)(m % 5), rep | 256);  // in place
     }
+  // the entry points of this property called a second time on the SAME buffers holding other data (new values, two limbs exchanged,
+  // one word moved between limbs): must equal a fresh call on that data (results or operands remembered by address)
+  {
+    static const char* const RNAMES[] = {"reim_from_znx64", "reim_to_znx64", "reim_to_tnx", "cplx_from_znx32", "cplx_from_tnx32", "cplx_to_tnx32", "reim_from_znx64_simple", "reim_to_znx64_simple", "cplx_from_znx32_simple", "cplx_from_tnx32_simple", "cplx_to_tnx32_simple"};
+    static const uint64_t RN[] = {2, 16, 64, 1024};
+    for (size_t i = 0; i < ARRAY_LEN(RN); i++)
+      for (int cfg = DISP_NATIVE; cfg >= DISP_GENERIC; cfg--) {
+        if (cfg == DISP_GENERIC && (i & 1)) continue;
+        ops_recontent_case("C14 entry points", RNAMES, (int)ARRAY_LEN(RNAMES), RN[i], cfg, G.thorough ? 40 : 6, (unsigned)i, "same_buffers_other_data_calls");
+      }
+  }
 }
